@@ -64,6 +64,34 @@ def run(ids):
     json.dump(results, open(res_path, "w"), indent=1, sort_keys=True)
 
 
+def run_mutants(names):
+    """hand-made mutants: mutants/<cNN>_<what>.patch, checked against CNN (+ EXTRA)"""
+    res_path = os.path.join(VERIF, "tables", "mutant_results.json")
+    results = json.load(open(res_path)) if os.path.exists(res_path) else {}
+    for fn in names:
+        pid = fn.split("_")[0]
+        props = ["C" + pid[1:]] + EXTRA.get(pid, [])
+        props = [p for p in props if os.path.exists(os.path.join(VERIF, "rules", p.lower() + ".py"))]
+        r = subprocess.run([sys.executable, os.path.join(VERIF, "bin", "try_patch.py"), os.path.join(VERIF, "mutants", fn)] + props, capture_output=True, text=True)
+        by = {}
+        cur = None
+        for l in r.stdout.splitlines():
+            m = re.match(r"== (C\d+) rc=(\d+)", l)
+            if m:
+                cur = m.group(1)
+            m = re.match(r"\s+rule=(\S+) fn=(\S+)", l)
+            if m and cur:
+                by.setdefault(cur, []).append("%s %s" % (m.group(1), m.group(2).split("::")[-1]))
+        verdict = "caught" if r.returncode == 0 else ("missed" if r.returncode == 1 else "error: " + r.stdout[-200:])
+        results[fn] = {"verdict": verdict, "by": {k: v[:3] for k, v in by.items()}}
+        print(fn, verdict, list(by))
+    json.dump(results, open(res_path, "w"), indent=1, sort_keys=True)
+
+
 if __name__ == "__main__":
-    ids = sys.argv[1:] or sorted(os.listdir(os.path.join(VERIF, "seeded")))
-    run(ids)
+    if len(sys.argv) > 1 and sys.argv[1] == "--mutants":
+        names = sys.argv[2:] or sorted(f for f in os.listdir(os.path.join(VERIF, "mutants")) if f.endswith(".patch"))
+        run_mutants(names)
+    else:
+        ids = sys.argv[1:] or sorted(os.listdir(os.path.join(VERIF, "seeded")))
+        run(ids)
